@@ -66,8 +66,10 @@ class Built:
         self.dirty = dirty
 
     def info(self):
-        return {"binary_profile": self.profile, "hook": self.hooks, "repo_head": self.repo_head,
-                "repo_dirty_digest": self.dirty}
+        d = {"binary_profile": self.profile, "hook": self.hooks, "repo_head": self.repo_head,
+             "repo_dirty_digest": self.dirty}
+        d.update(getattr(self, "probe", {}))
+        return d
 
 
 def repo_state():
@@ -123,7 +125,34 @@ def build_repo(profile="release", want_hooks=True, overflow_checks=False):
         shutil.copy2(src, dst)
     import atexit
     atexit.register(lambda: os.path.exists(dst) and os.unlink(dst))
-    return Built(dst, hooks, profile + ("+overflow-checks" if overflow_checks else ""), head, dirty)
+    b = Built(dst, hooks, profile + ("+overflow-checks" if overflow_checks else ""), head, dirty)
+    probe_spellings(b)
+    return b
+
+
+# Spellings the property texts do not settle (DESIGN 4.3): whether the tree under test treats them as log statements is
+# measured once per check run on a probe file that holds the ordinary spelling too; the workloads then either use them
+# (and hold the tool to what it showed on the probe) or leave them out. True until measured.
+SPACED_BANG = True
+
+
+def probe_spellings(built):
+    global SPACED_BANG
+    src = ('fn probe() {\n    info!("ordinary spelling");\n    info !("space before the bang");\n'
+           '    info /* c */ !("comment before the bang");\n    info\n        !("name and bang on different lines");\n'
+           '    info! ("space after the bang");\n}\n')
+    try:
+        with Box(tag="probe") as box:
+            box.write("src/probe.rs", src)
+            cfg = box.write("Breadlog.yaml", make_config(use_cache=False))
+            r = run_breadlog(built, box, cfg, check=True, timeout=60)
+        lines = sorted(l for _, l, _ in r.missing())
+    except Exception:
+        return
+    built.probe = {"probe_missing_lines": lines}
+    if 2 in lines:                      # the ordinary spelling was seen: the probe ran
+        SPACED_BANG = all(x in lines for x in (3, 4, 6, 7))
+        built.probe["layout_between_name_and_bang_recognised"] = SPACED_BANG
 
 
 # --------------------------------------------------------------------------- sandbox
